@@ -409,6 +409,10 @@ class ConfigRun(object):
             v = ch.pick(['a,b', 'x', 'p1,p2,p3'], 'ncsv')
         else:
             v = ch.pick(['newvalue%d' % o.version, 'with space %d' % o.version, '/new/path'], 'ns')
+            if typ == 'String' and ch.chance(1, 6, 'npad'):
+                # a string value is sent as it was assigned, blanks at either end included (they travel quoted)
+                v = ch.pick([' %s', '%s ', '  %s  '], 'npadk') % v
+                sim.probe('assign-scalar-string-with-outer-blanks')
         sim.probe('assign-scalar')
         sim.log('assign', o.name, repr(v))
         setattr(self.cfg, self.name_case(o), v)
@@ -669,6 +673,26 @@ class ConfigRun(object):
         self.proto = TorControlProtocol()
         self.conn = sim.net.attach(self.proto, self.tor)
         self.conn.seg_mode = ch.pick(['mixed', 'whole', 'mixed', 'whole', 'bytewise'], 'segmode')
+        sim.add_source(self.tor_actions)
+        if self.prop == 'C11' and ch.chance(1, 6, 'priorlistener'):
+            # the connection has a history before the view is attached: the application listened for CONF_CHANGED
+            # itself and Tor has already announced a change by another controller. The view built afterwards must
+            # report what Tor has and follow every later announcement like any other
+            sim.probe('view-attached-to-connection-that-already-delivered-conf-changed')
+            self.app_heard = []
+            self.proto.post_bootstrap.addCallback(
+                lambda p: (self.proto.add_event_listener('CONF_CHANGED', self.app_heard.append), p)[1])
+            for _ in range(4000):
+                if 'CONF_CHANGED' in self.tor.subscribed or not sim.step():
+                    break
+            if 'CONF_CHANGED' not in self.tor.subscribed:
+                raise HarnessError('the application listener never got subscribed')
+            self.changes_left += 1
+            self.op_second_controller()
+            for _ in range(4000):
+                if self.app_heard or not sim.step():
+                    break
+            sim.drain(max_steps=4000)
         if ch.chance(1, 5, 'attachmode'):
             # the other way to a connected view (what launch() does): a stand-alone TorConfig on which the caller has
             # already set a few options is attached to the protocol; nothing of that may reach Tor without save(),
@@ -695,7 +719,6 @@ class ConfigRun(object):
         else:
             d = TorConfig.from_protocol(self.proto)
         d.addCallbacks(self.on_boot, self.on_boot_fail)
-        sim.add_source(self.tor_actions)
         sim.add_source(self.actions)
         n = 0
         while n < self.P.get('max_steps', 4000):
